@@ -17,8 +17,9 @@ def main():
         P = props.PROPS[pid]
         text = P.get("level_text") or ("Every listed obligation (post-conditions, frames, exactness of the arithmetic model, "
                "coverage guards) is generated from /repo's current source and discharged by z3 (cvc5 for unknowns) for all inputs "
-               "of the contract's domain with no bound; history parts are lemmas over those contracts; bounded stand-ins are "
-               "reported separately and never counted as proved.")
+               "of the contract's domain with no bound; whole transfers and histories are inductive loop invariants (loop-init / "
+               "loop-step / loop-variant obligations) and callee contracts (call-pre obligations) over the same real code; bounded "
+               "stand-ins are reported separately and never counted as proved.")
         note = "trusted: pyvc interpreter + builtin/library models (cross-checked against CPython every run), z3/cvc5, spec transcriptions; " \
                "assumed contracts: " + ("; ".join(P["assumed"]) or "none") + ". Not decided: " + ("; ".join(P["not_decided"]) or "nothing beyond the trusted base")
         checks.append({"property_id": pid, "quick_cmd": "./check %s --tier quick" % pid,
@@ -26,7 +27,7 @@ def main():
                        "replay_cmd_template": "./check %s --replay {path}" % pid, "engine": "pyvc",
                        "level_claimed": {"category": "proof", "text": text, "design_ref": "DESIGN.md §7 " + pid},
                        "level_note": note,
-                       "technique": "contract-based deductive verification: sidecar contracts on the real functions, AST->SMT verification conditions, z3/cvc5"})
+                       "technique": "contract-based deductive verification: sidecar contracts (pre-state families, post-conditions, frame conditions, loop invariants, callee contracts) on the real functions, verification conditions generated from /repo's AST on every run, discharged by z3 (bit-blasting and int-blasting) and cvc5; counter-models replayed on the real code under CPython"})
     m = {"version": 1, "setup_cmd": "./setup.sh",
          "hooks": {"guard": "CANOPEN_VERIF", "enable": "none needed: contracts are sidecars in /verif; /repo carries no hooks",
                    "baseline_off_cmd": "cd /repo && /venv/bin/python -m pytest -ra -q -p no:cacheprovider --timeout=900 --continue-on-collection-errors",
